@@ -28,10 +28,19 @@ def hook_raw(eng, i, op):
     if muts:
         eng.res.flags.add("rejected-call-touched-disk")
     eng.res.trace.append({"i": i, "op": op, "out": [out[0], _jsonable(out[1])]})
+    if op.get("conditional") and out[0] == "ok":
+        # accepted: then it must have had exactly the effect of the call without the extra arguments
+        eng.res.flags.discard("rejected-call")
+        if "stores_content" in op:
+            eng.model.objs.add(eng.model.cid_of(w.contents[op["stores_content"]]))
+        eng.check_state(op, None, i)
+        return
     if after != before:
         diff = sorted(set(after.items()) ^ set(before.items()))[:6]
         eng.violation({"C17"}, "rejected-changed", "rejected-changed:%s" % op["method"],
                       {"op": op, "outcome": [out[0], _jsonable(out[1])], "diff": diff, "mutating_events": muts[:8]}, i)
+        return
+    if op.get("conditional"):
         return
     if out[0] != "exc" or out[1] not in op["expect"]:
         eng.violation({"C17"}, "rejected-class", "rejected-class:%s:%s->%s" % (
@@ -121,7 +130,9 @@ def c14_prologue(eng):
     """Before the store exists: creating one with an unsupported algorithm must raise and create
     nothing."""
     w = eng.world
-    for bad in cfgspace.UNSUPPORTED_STORE_ALGOS[:3]:
+    import random
+    r = random.Random("c14pro:%s" % eng.prog.get("seed"))
+    for bad in r.sample(cfgspace.UNSUPPORTED_STORE_ALGOS, 3):
         cfg = dict(w.cfg, store_algorithm=bad)
         try:
             w.open_store(cfg)
